@@ -37,11 +37,14 @@ POOL = [
     (("type", ("K", 0)), 0, "return ('typeleaf', 10)"),                 # a leaf on type[K0]: the position becomes "complex"
     # the function's own name at the top level of the body and recurse only inside a nested scope (a generator expression)
     (("raw", "tuple"), 0, "first = F(x[0]) if x else None\nreturn ('t', first) + tuple(recurse(a) for a in x[1:])"),
+    # recurse naming, by keyword, a positional parameter that only OTHER methods declare (the leaf below)
+    (("raw", "list"), 0, "return ['w'] + [recurse(a, y=7) for a in x]"),
+    (("K", 1), 0, "return ('leaf', 13, y)", None, [("y", ("obj",), True)]),
 ]
 
 
 def key(m):
-    return (POOL[m][0], POOL[m][1])
+    return (POOL[m][0], POOL[m][1], len(POOL[m]) > 4)      # (a further positional parameter makes it another signature)
 
 
 def make_world(ex, shape, real):
@@ -50,7 +53,7 @@ def make_world(ex, shape, real):
     return W
 
 
-_MS = MethodSet([dict(pos=[("x", e[0], False)], body=e[2], closure=(e[3] if len(e) > 3 else None)) for e in POOL])
+_MS = MethodSet([dict(pos=[("x", e[0], False)] + (e[4] if len(e) > 4 else []), body=e[2], closure=(e[3] if len(e) > 3 else None)) for e in POOL])
 
 
 def make_run(W, shape, known_active=None):
@@ -150,13 +153,26 @@ def make_run(W, shape, known_active=None):
         # node, recursion over a list is element-wise -- also for CLASS objects (type[...] leaves)
         for v in range(len(nodes)):
             fl = led.flat(v, same_key)
-            if 0 in fl and 8 not in fl:
+            if 0 in fl and 8 not in fl and 12 not in fl:
                 for name, e in (("K0", W.K[0]), ("K1", W.K[1]), ("a", W.inst[0])):
                     direct = full_outcome(lambda: nodes[v](e), LOG)
                     nested = full_outcome(lambda: nodes[v]([e]), LOG)
                     if nested[0][:1] == [0] and direct[1][0] == "ret" and nested[1] != ["ret", "[" + direct[1][1] + "]"]:
                         ok = False
                         trace.append(dict(node=v, input=f"[{name}]", got=nested, flat_reference=["element-wise law", direct]))
+        # the same law for a recurse call that names a positional parameter by keyword: recurse(a, y=7) inside the walker is nodes[v](a, y=7)
+        for v in range(len(nodes)):
+            fl = led.flat(v, same_key)
+            if 12 in fl and 0 not in fl and 8 not in fl:
+                for name, e in (("b", W.inst[1]), ("a", W.inst[0])):
+                    direct = full_outcome(lambda: nodes[v](e, y=7), LOG)
+                    nested = full_outcome(lambda: nodes[v]([e]), LOG)
+                    if nested[0][:1] != [12]:
+                        continue
+                    same = (nested[1] == ["ret", "['w', " + direct[1][1] + "]"]) if direct[1][0] == "ret" else (nested[1][0] != "ret")      # (a rejection either way; its wording depends on the route)
+                    if not same:
+                        ok = False
+                        trace.append(dict(node=v, input=f"[{name}]", got=nested, flat_reference=["keyword law: recurse(a, y=7) == f(a, y=7)", direct]))
         for v in reversed(range(len(nodes))):   # children first, then every ancestor must still be itself
             probe(v)
         for v in range(len(nodes)):
@@ -236,6 +252,11 @@ def gen_shapes(tier, seed):
     fam.append([["new", [0, 5]], ["variant", 0, 10, False], ["variant", 1, 3, False]])
     fam.append([["new", [0, 3, 5]], ["copy", 0, False], ["reg", 1, 10]])
     fam.append([["new", [0, 1, 5]], ["copy", 0, True], ["latereg", 1, 3], ["latereg", 1, 7]])
+    # recurse naming a positional parameter of other methods by keyword (list walker 12, leaf 13 with the optional parameter y)
+    fam.append([["new", [12, 13, 5]], ["variant", 0, 3, False], ["copy", 0, False]])
+    fam.append([["new", [12, 5]], ["variant", 0, 13, False], ["variant", 1, 4, False]])
+    fam.append([["new", [13, 5]], ["new", [12]], ["copy", 0, False], ["mixin", 2, 1]])
+    fam.append([["new", [11, 3, 5]], ["variant", 0, 4, False]])
     N = 420 if tier == "quick" else 8000
     shapes = [dict(n=3, ops=h) for h in fam]
     for _ in range(N):
@@ -260,7 +281,7 @@ def main(tier, seed):
     results = runner.pmap("props.c08", "explore_shape", shapes, kw, chunksize=2)
     return runner.finish(
         PID, tier, seed, t0, results,
-        bounds=dict(classes=3, nodes="<= 5 functions", pool="12 methods (a leaf on type[K0]; one defined in a factory, reaching recurse through a closure cell): list/dict containers via recurse, tuple container naming the root function, an "
+        bounds=dict(classes=3, nodes="<= 5 functions", pool="14 methods (a leaf on type[K0]; one defined in a factory, reaching recurse through a closure cell): list/dict containers via recurse, tuple container naming the root function, an "
                     "overriding list container, leaves on K0/K1/K2/object (one overriding, one using call_next)",
                     graphs="random build histories of 3-6 operations (new / copy / variant / add_mixins / register), half of them followed by a registration on an already used leaf node, + 7 documented patterns; forests "
                            "with fan-in <= 2, depth <= 4", inputs="6 nested inputs (lists, tuples, dicts to depth 3 over instances of the 3 classes and object())",
